@@ -55,7 +55,7 @@ Definition cmd_no_cr (k : kcmd) : bool :=
 
 (* a process as far as cmdline() is concerned *)
 Definition view_cmd (k : kcmd) (zombie : bool) : pview :=
-  {| v_pdir := true; v_stat := Some zombie; v_comm := bs "x";
+  {| v_stat := Some zombie; v_stat_denied := false; v_comm := bs "x";
      v_cmdline := FData (k_cmdline k); v_environ := FData [];
      v_exe := LENOENT; v_cwd := LENOENT; v_paths := [] |}.
 
@@ -113,7 +113,7 @@ Fixpoint spec_env (items : list eitem) : list (bytes * bytes) :=
   end.
 
 Definition view_env (r : kenv) : pview :=
-  {| v_pdir := true; v_stat := Some false; v_comm := bs "x";
+  {| v_stat := Some false; v_stat_denied := false; v_comm := bs "x";
      v_cmdline := FData []; v_environ := FData (k_environ r);
      v_exe := LENOENT; v_cwd := LENOENT; v_paths := [] |}.
 
@@ -154,7 +154,7 @@ Record kproc := {
   p_paths : list (bytes * pkind) }.   (* what exists: executable files, other files, directories *)
 
 Definition view_proc (r : kproc) : pview :=
-  {| v_pdir := true; v_stat := Some false; v_comm := p_comm r;
+  {| v_stat := Some false; v_stat_denied := false; v_comm := p_comm r;
      v_cmdline := FData (k_cmdline (p_cmd r)); v_environ := FData [];
      v_exe := match p_exe r with
               | Some l => to_link l
@@ -194,3 +194,23 @@ Definition spec_name (r : kproc) : bytes :=
     then basename a0 else p_comm r
   | [] => p_comm r
   end.
+
+(* ------------------------------------------------------------ a zombie; a block of calls *)
+(* a zombie keeps its stat record (state Z, comm) but its cmdline and environ read empty
+   and its exe/cwd links are withheld *)
+Definition view_zombie (comm : bytes) (esrch : bool) : pview :=
+  {| v_stat := Some true; v_stat_denied := false; v_comm := comm;
+     v_cmdline := FData []; v_environ := FData [];
+     v_exe := if esrch then LESRCH else LENOENT; v_cwd := if esrch then LESRCH else LENOENT; v_paths := [] |}.
+Definition zombie_ops (v : pview) : list (pview * op) := [(v, OpName); (v, OpCmdline); (v, OpExe); (v, OpCwd)].
+Definition spec_zombie (comm : bytes) : list res :=
+  [RBytes (Val comm); RList (Exc ZombieProcess); RBytes (Exc ZombieProcess); RBytes (Exc ZombieProcess)].
+
+(* cmdline(), cmdline() again, name(), exe() on one object while the kernel state stands
+   still (e.g. inside one oneshot() block, whatever the caller did with the list the first
+   call returned): every answer is what the kernel exposes *)
+Definition hist_ops (v : pview) : list (pview * op) :=
+  [(v, OpCmdline); (v, OpCmdline); (v, OpName); (v, OpExe)].
+Definition spec_hist (r : kproc) : list res :=
+  [RList (Val (spec_cmdline (p_cmd r))); RList (Val (spec_cmdline (p_cmd r)));
+   RBytes (Val (spec_name r)); RBytes (spec_exe r)].
